@@ -10,7 +10,7 @@ META = {
     "level_note": "TLC checks the batch definitions (VarNonNeg, MeanInRange, order-freedom, Welford = batch in exact "
                   "arithmetic) on every sequence of the bounded model and emits every sequence with its exact batch "
                   "statistics; DataSetSummary::update is replayed on all of them (every prefix, every arrival order of "
-                  "each multiset, scales 10^-9/1/10^9).",
+                  "each multiset, scales 10^-9/1/10^9). Trusted: TLC, spec/Rational.tla, the projection functions in harness/src/stats_driver.rs (bins c16/c17/c18), the assumptions listed in the evidence file.",
     "technique": "TLC exhaustive + simulation (Pattern B: exact rationals replayed into the implementation)",
 }
 ASSUMPTIONS = [
@@ -50,7 +50,8 @@ def corrupt(scn):
 def check(ctx):
     ctx.assumptions += ASSUMPTIONS
     ctx.build("c17")
-    ctx.tlc_mc("MC_" + MODULE, "MC_Stats_C17.cfg" if ctx.quick else "MC_Stats_C17_thorough.cfg", timeout=1500)
+    ctx.tlc_actions("MC_" + MODULE, "MC_Stats_C17_small.cfg", ["AddValueAny"])
+    ctx.tlc_mc("MC_" + MODULE, "MC_Stats_C17.cfg" if ctx.quick else "MC_Stats_C17_thorough.cfg", timeout=1500, coverage=False)
     # every sequence of the bounded model (all arrival orders of every multiset) ...
     p_t, scn_t = ctx.tlc_gen("Gen_" + MODULE, "GenT_Stats_C17.cfg" if ctx.quick else "GenT_Stats_C17_thorough.cfg", "all.ndjson", timeout=900)
     # ... and longer random datasets over a wider value set
